@@ -105,11 +105,20 @@ func c16StartRW(cfg verifh.Cfg) (func(op []string) string, func()) {
 	} else {
 		rw = NewRollingWindow[int64, *c16Bucket](newBucket, size, iv)
 	}
+	// a second window over the package's own Bucket type (Sum / Count), fed the same additions
+	newReal := func() *Bucket[int64] { return new(Bucket[int64]) }
+	var rwB *RollingWindow[int64, *Bucket[int64]]
+	if cfg.Int("ignore", 0) == 1 {
+		rwB = NewRollingWindow[int64, *Bucket[int64]](newReal, size, iv, IgnoreCurrentBucket[int64, *Bucket[int64]]())
+	} else {
+		rwB = NewRollingWindow[int64, *Bucket[int64]](newReal, size, iv)
+	}
 	step := func(op []string) string {
 		switch {
 		case len(op) == 3 && op[0] == "add":
 			timex.VerifSetNow(time.Duration(verifh.Atoi64(op[1])))
 			rw.Add(verifh.Atoi64(op[2]))
+			rwB.Add(verifh.Atoi64(op[2]))
 			return "ok"
 		case len(op) == 2 && op[0] == "reduce":
 			timex.VerifSetNow(time.Duration(verifh.Atoi64(op[1])))
@@ -120,6 +129,9 @@ func c16StartRW(cfg verifh.Cfg) (func(op []string) string, func()) {
 					ss[i] = strconv.FormatInt(v, 10)
 				}
 				out = append(out, "b:"+strings.Join(ss, ","))
+			})
+			rwB.Reduce(func(b *Bucket[int64]) {
+				out = append(out, fmt.Sprintf("s:%d/%d", b.Sum, b.Count))
 			})
 			return strings.Join(out, " ")
 		case len(op) == 1 && op[0] == "st":
